@@ -160,7 +160,7 @@ func NewTracker(c *Check) *Tracker {
 					f.Kind = "emit"
 					if rc, ok := strip(cc.Args[len(cc.Args)-1]).(*ssa.Call); ok {
 						if rs := staticCallee(rc.Common()); rs != nil && t.Renderer[rs] && len(rc.Call.Args) == 2 {
-							f.U, f.E = v.R.Of(rc.Call.Args[0]), v.R.Of(rc.Call.Args[1])
+							f.U, f.E = freshCtor(v.R.Of(rc.Call.Args[0])), v.R.Of(rc.Call.Args[1])
 						}
 					}
 					t.Facts = append(t.Facts, f)
@@ -174,7 +174,7 @@ func NewTracker(c *Check) *Tracker {
 				f.Map = pathRecv(v.R.Of(args[0]))
 				switch name {
 				case "Store":
-					f.Key, f.Val = v.R.Of(args[1]), v.R.Of(args[2])
+					f.Key, f.Val = v.R.Of(args[1]), freshCtor(v.R.Of(args[2]))
 				case "Load", "Has", "Delete", "DeleteUnsafe":
 					f.Key = v.R.Of(args[1])
 				case "WithLockedValueDo":
@@ -195,7 +195,7 @@ func NewTracker(c *Check) *Tracker {
 				f.Kind = "emit"
 				if rc, ok := strip(args[len(args)-1]).(*ssa.Call); ok {
 					if rs := staticCallee(rc.Common()); rs != nil && t.Renderer[rs] && len(rc.Call.Args) == 2 {
-						f.U, f.E = v.R.Of(rc.Call.Args[0]), v.R.Of(rc.Call.Args[1])
+						f.U, f.E = freshCtor(v.R.Of(rc.Call.Args[0])), v.R.Of(rc.Call.Args[1])
 					}
 				}
 				t.Facts = append(t.Facts, f)
@@ -204,14 +204,14 @@ func NewTracker(c *Check) *Tracker {
 			if t.BindFns[sc] && len(args) >= 2 {
 				f := base
 				f.Kind = "bind"
-				f.U, f.Login = v.R.Of(args[0]), t.normLookup(v.R, v.R.Of(args[1]))
+				f.U, f.Login = freshCtor(v.R.Of(args[0])), t.normLookup(v.R, v.R.Of(args[1]))
 				t.Facts = append(t.Facts, f)
 				return
 			}
 			if t.FlushFns[sc] && len(args) >= 1 {
 				f := base
 				f.Kind = "flush"
-				f.U = v.R.Of(args[0])
+				f.U = freshCtor(v.R.Of(args[0]))
 				t.Facts = append(t.Facts, f)
 			}
 		case *ssa.Store:
@@ -225,7 +225,7 @@ func NewTracker(c *Check) *Tracker {
 			}
 			fname := fieldName(fa.X.Type(), fa.Field)
 			f := base
-			f.U = v.R.Of(fa.X)
+			f.U = freshCtor(v.R.Of(fa.X))
 			f.Field = fname
 			f.Val = v.R.Of(x.Val)
 			f.Kind = "userstore"
@@ -539,4 +539,80 @@ func (t *Tracker) normLookup(r *Resolver, o *Org) *Org {
 	}
 	inner := &Org{K: "field", Name: "m", Sub: []*Org{r.Of(cl.Call.Args[0])}}
 	return &Org{K: "lookup", V: cl, Sub: []*Org{inner, r.Of(cl.Call.Args[1])}}
+}
+
+
+// freshCtor: the result of a repository constructor function every return of
+// which yields one and the same struct literal allocated in that function is
+// a fresh object of the calling activation: it is rendered as that
+// allocation (so that the literal's field initialisations, which are facts of
+// the constructor's frame, refer to the same object). A function that can
+// return anything else (an object taken from a pool, a parameter) stays a
+// call origin and is not treated as fresh.
+func freshCtor(o *Org) *Org {
+	if o == nil || o.K != "call" || o.Idx > 0 {
+		return o
+	}
+	call, ok := o.V.(*ssa.Call)
+	if !ok {
+		return o
+	}
+	sc := staticCallee(call.Common())
+	if sc == nil || !InRepo(sc) || sc.Blocks == nil || sc.Signature.Results().Len() != 1 {
+		return o
+	}
+	var lit *ssa.Alloc
+	okAll := true
+	allInstrs(sc, func(in ssa.Instruction) {
+		ret, isRet := in.(*ssa.Return)
+		if !isRet || ret.Block() == sc.Recover {
+			return
+		}
+		a, isA := strip(ret.Results[0]).(*ssa.Alloc)
+		if !isA || !a.Heap || (lit != nil && lit != a) || a.Parent() != sc {
+			okAll = false
+			return
+		}
+		lit = a
+	})
+	if !okAll || lit == nil {
+		return o
+	}
+	// the literal must not be stored anywhere by the constructor (a pool, a registry)
+	if refs := lit.Referrers(); refs != nil {
+		for _, u := range *refs {
+			switch x := u.(type) {
+			case *ssa.FieldAddr, *ssa.Return, *ssa.DebugRef:
+			case *ssa.Store:
+				if x.Val == ssa.Value(lit) {
+					return o
+				}
+			default:
+				return o
+			}
+		}
+	}
+	return &Org{K: "alloc", V: lit, Name: typeName(deref(lit.Type()))}
+}
+
+
+// isZeroOrg: the origin is the zero value of its type (false, nil, 0, "",
+// an all-zero struct).
+func isZeroOrg(o *Org) bool {
+	if o == nil {
+		return false
+	}
+	switch o.K {
+	case "zero":
+		return true
+	case "const":
+		switch o.Name {
+		case "false", "nil", "zero", "0", "\"\"":
+			return true
+		}
+		if k, ok := o.V.(*ssa.Const); ok && k.Value == nil {
+			return true
+		}
+	}
+	return false
 }
